@@ -248,16 +248,21 @@ def run(chk):
                     viol.append(("%s leaves its envelope [%g, %g] or is not monotone in depth" % (m["model"], Tt, Tb), dsc))
             # (a') the proved overshoot bound (C20_plate_series_overshoot / C20_constant_age_overshoot): a truncated series may leave
             # [top, bottom] by at most (bottom - top) * sum_i 2/(i pi) exp(expo_i) - at every age, the young ones of D15 included
-            if m["model"] == "plate model constant age" and Tb >= Tt:
+            if m["model"] in ("plate model constant age", "plate model") and Tb >= Tt and age is not None and age >= 0:
                 tau = kappa * age / (md * md)
-                B = sum(2.0 / (i * math.pi) * math.exp(-i * i * math.pi * math.pi * tau) for i in range(1, 101))
+                if m["model"] == "plate model":
+                    v = m["spreading velocity"] / SEC_YEAR
+                    A = v * md / (2 * kappa)
+                    B = sum(2.0 / (i * math.pi) * math.exp((A - math.sqrt(A * A + i * i * math.pi * math.pi)) * (v * age / md)) for i in range(1, 101))
+                else:
+                    B = sum(2.0 / (i * math.pi) * math.exp(-i * i * math.pi * math.pi * tau) for i in range(1, 101))
                 lo, hi = Tt - (Tb - Tt) * B * (1 + 1e-9) - slack, Tb + (Tb - Tt) * B * (1 + 1e-9) + slack
                 worse = [(d, t) for d, t in zip(ds, T) if not (lo <= t <= hi)]
                 chk.counters["overshoot_bound_checked"] = chk.counters.get("overshoot_bound_checked", 0) + len(T)
                 if worse:
                     dsc = cs.describe(ladder[0])
                     dsc["outside_proved_bound"], dsc["bound"], dsc["tau"] = worse[:3], [lo, hi], tau
-                    viol.append(("plate model constant age leaves [top, bottom] by more than the amplitude sum of its series allows "
+                    viol.append((m["model"] + " leaves [top, bottom] by more than the amplitude sum of its series allows "
                                  "(theorem C20_plate_series_overshoot)", dsc))
             # (c) boundary values
             if abs(T[0] - Tt) > 1e-6 * max(1.0, Tt) and not (m["model"] == "half space model" and age is not None and age <= 0):
